@@ -259,17 +259,22 @@ pub fn derive_cfg(job: &Job) -> SimCfg {
         }
         _ => {}
     }
+    // with documents of tens of thousands of characters, byte-sized chunks and a 64-byte output
+    // pipe would eat the step budget without exploring anything new
+    let big = gen_cfg.big_docs;
+    let chunk_max = if sequential { 0 } else { *r.pick(&[0, 0, 1, 7, 40, 300]) };
+    let stdout_cap = if sequential { 0 } else { *r.pick(&[0, 0, 64, 1024]) };
     SimCfg {
         policy,
         gen_cfg,
-        chunk_max: if sequential { 0 } else { *r.pick(&[0, 0, 1, 7, 40, 300]) },
-        stdout_cap: if sequential { 0 } else { *r.pick(&[0, 0, 64, 1024]) },
+        chunk_max: if big && chunk_max > 0 { chunk_max.max(2000) } else { chunk_max },
+        stdout_cap: if big && stdout_cap > 0 { stdout_cap.max(16 * 1024) } else { stdout_cap },
         answers_any_order: !sequential && r.chance(1, 4),
         fs_short_pm: if sequential { 0 } else { *r.pick(&[0, 0, 300, 1000]) },
         libc_short_pm: if mode == "stats" { *r.pick(&[0, 300, 900]) } else { 0 },
         libc_eintr_pm: if mode == "stats" { *r.pick(&[0, 100, 400]) } else { 0 },
         universe: r.below(64) as u64,
-        max_steps: 20_000,
+        max_steps: 60_000,
         kind_weights: [r.range(1, 6), r.range(1, 6), r.range(1, 6), r.range(1, 6), r.range(1, 6)],
         latency: [
             *r.pick(&[1_000, 100_000, 5_000_000]),
